@@ -6,6 +6,8 @@ import (
 	"sort"
 
 	"golang.org/x/tools/go/ssa"
+
+	"verif/tools/load"
 )
 
 type tokenPos = token.Pos
@@ -24,4 +26,41 @@ func sortedBlocks(m map[*ssa.BasicBlock]bool) []*ssa.BasicBlock {
 	}
 	sort.Slice(out, func(i, j int) bool { return out[i].Index < out[j].Index })
 	return out
+}
+
+// bufferFunnel returns the function that sanitises a reader into a fresh bytes.Buffer: (*Policy).sanitizeWithBuff, or —
+// when that helper was folded into its caller — the method of *Policy with the signature func(io.Reader) *bytes.Buffer
+// that calls (*Policy).sanitize (SanitizeReader).
+func bufferFunnel(c *Ctx) *ssa.Function {
+	if fn := c.P.Func(load.ModPath, "(*Policy).sanitizeWithBuff"); fn != nil {
+		return fn
+	}
+	san := c.P.Func(load.ModPath, "(*Policy).sanitize")
+	if san == nil {
+		return nil
+	}
+	var found *ssa.Function
+	for _, fn := range moduleFuncs(c.P) {
+		if fn.Signature.Recv() == nil || fn.Signature.Params().Len() != 1 || fn.Signature.Results().Len() != 1 {
+			continue
+		}
+		if fn.Signature.Params().At(0).Type().String() != "io.Reader" || fn.Signature.Results().At(0).Type().String() != "*bytes.Buffer" {
+			continue
+		}
+		calls := false
+		for _, b := range fn.Blocks {
+			for _, in := range b.Instrs {
+				if cl, ok := in.(*ssa.Call); ok && cl.Common().StaticCallee() == san {
+					calls = true
+				}
+			}
+		}
+		if calls {
+			if found != nil {
+				return nil
+			}
+			found = fn
+		}
+	}
+	return found
 }
